@@ -21,6 +21,8 @@ fn program(kind: &str, body: &str, n: i32, m: i32, v: &[i32]) -> Vec<Item> {
         // Item::list takes bottom-first: the LAST vector element is executed first
         "acc" => Item::list(vec![ins("INTEGER.+"), ins("INDEX.CURRENT")]),
         "nest" => Item::list(vec![ins("INDEX.CURRENT"), ins("EXEC.LOOP"), ins("INDEX.DEFINE"), Item::int(m)]),
+        // the body looks at the INTVECTOR stack: while it runs, the iterated vector must not be there
+        "depth" => ins("INTVECTOR.STACKDEPTH"),
         _ => ins("CODE.FROMINTEGER"),
     };
     match kind {
@@ -58,7 +60,7 @@ pub fn run(seed: u64, tier: &str, out: &mut dyn FnMut(String)) {
     let maxn = if tier == "thorough" { 60 } else { 25 };
     let mut case = 0u64;
     for kind in ["exec", "code", "ivec"].iter() {
-        let bodies: &[&str] = if *kind == "ivec" { &["from"] } else { &["cur", "acc", "nest"] };
+        let bodies: &[&str] = if *kind == "ivec" { &["from", "depth"] } else { &["cur", "acc", "nest"] };
         for body in bodies {
             for n in 0..maxn {
                 for rep in 0..2 {
